@@ -115,3 +115,19 @@ impl NsReader {
             r is Err ==> is_prefix(old(self).log@, final(self).log@),
     { unimplemented!() }
 }
+
+// reader.read_to_end(end): skips events up to the matching end tag (ASSUMED: consumes some prefix of the remaining
+// events; every skipped event is recorded in the log like an event handed to the caller, so "nothing was skipped" claims
+// cannot be established across it)
+pub struct Span;
+pub open spec fn evs_items(evs: Seq<(ResolveResult, Event)>) -> Seq<Item> { Seq::new(evs.len(), |i: int| Item::Ev(evs[i].0, evs[i].1)) }
+impl NsReader {
+    #[verifier::external_body]
+    pub fn read_to_end(&mut self, end: QName) -> (r: Result<Span, XmlError>)
+        ensures
+            final(self).remaining@.len() <= old(self).remaining@.len(),
+            r is Ok ==> exists|k: int| 0 <= k <= old(self).remaining@.len() && final(self).remaining@ == old(self).remaining@.skip(k)
+                && #[trigger] final(self).log@ == old(self).log@ + evs_items(old(self).remaining@.take(k)),
+            r is Err ==> is_prefix(old(self).log@, final(self).log@),
+    { unimplemented!() }
+}
